@@ -531,19 +531,41 @@ class _Tap:
 _TAP = _Tap()
 
 
+# how the caller of main() / of the report writers collects what they print:
+# 'tap' - one stream object for the life of the process (a shell, a log file);
+# 'redirect' - a new stream object per invocation, put back afterwards
+# (contextlib.redirect_stdout, pytest's capsys, a notebook cell, a GUI)
+CAPTURE_STYLE = ['tap']
+
+
 class Capture:
-    """The slice of the process-wide tap that one invocation produced."""
+    """What one invocation printed: the slice of the process-wide tap it
+    produced, plus - in 'redirect' style - what it wrote to the stream
+    objects that were sys.stdout / sys.stderr for this invocation only.
+    Output sent to a stream object of an earlier invocation is lost, as it
+    is for such a caller."""
 
     def __enter__(self):
         _TAP.install()
         self._o = len(_TAP.out.getvalue())
         self._e = len(_TAP.err.getvalue())
         self.out = self.err = None
+        self._own = None
+        if CAPTURE_STYLE[0] == 'redirect':
+            self._own = (io.StringIO(), io.StringIO(), sys.stdout, sys.stderr)
+            sys.stdout, sys.stderr = self._own[0], self._own[1]
+            fired('capture_per_invocation')
         return self
 
     def __exit__(self, *exc):
-        self.out = io.StringIO(_TAP.out.getvalue()[self._o:])
-        self.err = io.StringIO(_TAP.err.getvalue()[self._e:])
-        if sys.stdout is not _TAP.out or sys.stderr is not _TAP.err:
+        o = _TAP.out.getvalue()[self._o:]
+        e = _TAP.err.getvalue()[self._e:]
+        if self._own is not None:
+            o += self._own[0].getvalue()
+            e += self._own[1].getvalue()
+            sys.stdout, sys.stderr = self._own[2], self._own[3]     # as redirect_stdout does
+        elif sys.stdout is not _TAP.out or sys.stderr is not _TAP.err:
             fired('program_rebound_std_stream')
+        self.out = io.StringIO(o)
+        self.err = io.StringIO(e)
         return False
